@@ -38,8 +38,33 @@ def budget(tier):
 @st.composite
 def case_strategy(draw):
     size = float(10.0 ** gen.r6(draw(gen.ufloat(-2, 2))))
-    derive = draw(st.sampled_from(["none", "none", "none", "open", "disconnected", "intersecting", "disjoint_boxes", "rod_plate"]))
-    if derive == "rod_plate":
+    derive = draw(st.sampled_from(["none", "none", "none", "open", "disconnected", "intersecting", "disjoint_boxes", "rod_plate", "hull_corner"]))
+    base = None
+    if derive == "hull_corner":
+        # very different facet sizes: a coarse box (12 large facets) and a fine convex body (many small facets) that
+        # swallows one corner of the box - the crossings lie far from the centroids of the large facets
+        d1 = [gen.r6(size * draw(gen.ufloat(0.7, 1.0))) for _ in range(3)]
+        sgn = [1 if draw(st.booleans()) else -1 for _ in range(3)]
+        corner = np.array([s_ * d_ / 2 for s_, d_ in zip(sgn, d1)])
+        rho = 0.18 * min(d1)
+        npts = draw(st.integers(14, 40))
+        dirs = [geom.direction_from_u(draw(gen.unit_f), draw(gen.unit_f)) for _ in range(npts)]
+        dirs += [np.array(v, dtype=float) / np.linalg.norm(v) for v in ((1, 0.2, 0.1), (-1, 0.1, -0.2), (0.2, 1, -0.1), (0.1, -1, 0.2), (-0.2, 0.1, 1), (0.1, -0.2, -1))]
+        pts = [(corner + rho * (0.85 + 0.15 * draw(gen.unit_f)) * np.asarray(dv)).tolist() for dv in dirs]
+        hm = gen._hull_mesh([[gen.r6(x) for x in p_] for p_ in pts])  # pylint: disable=protected-access
+        if hm is None:
+            derive = "intersecting"
+        else:
+            Vh, Fh = hm
+            Vb_, Fb_ = gen.box_mesh(d1)
+            if draw(st.booleans()):
+                V, F = Vh + Vb_, Fh + [[i + len(Vh) for i in f] for f in Fb_]
+            else:
+                V, F = Vb_ + Vh, Fb_ + [[i + len(Vb_) for i in f] for f in Fh]
+            base = {"vertices": V, "faces": F, "mesh_kind": "hull_corner"}
+    if base is not None:
+        pass
+    elif derive == "rod_plate":
         # one-way piercing: a thin rod pushed through a plate (only rod edges cross plate faces); either part may come first
         t = gen.r6(size * draw(gen.ufloat(0.05, 0.12)))
         plate = [size, gen.r6(size * draw(gen.ufloat(0.7, 1.0))), t]
@@ -87,7 +112,9 @@ def case_strategy(draw):
         k = draw(st.integers(1, min(3, nf - 3)))
         drop = sorted(draw(st.lists(st.integers(0, nf - 1), min_size=k, max_size=k, unique=True)))
     return {"base": base, "derive": derive, "perm_f": list(perm_f), "perm_v": list(perm_v), "flip": flip, "roll": roll, "drop": drop,
-            "polarization": draw(gen.excitation_vec()), "size": size, "probe": draw(gen.uniforms(24))}
+            "polarization": draw(gen.excitation_vec()), "size": size, "probe": draw(gen.uniforms(24)),
+            # construct without reorientation, use the mesh once, then ask for the reorientation explicitly
+            "late_reorient": draw(st.integers(0, 3)) == 0}
 
 
 def strategy(tier):
@@ -180,21 +207,36 @@ def run_case(case, ctx):
     ctx.label("mesh:" + case["base"]["mesh_kind"].split("+")[0])
     out = []
     pol = case["polarization"]
-    r = build.call(lambda: magpy.magnet.TriangularMesh(vertices=V, faces=F, polarization=pol, check_open="ignore",
-                                                        check_disconnected="ignore", check_selfintersecting="ignore", reorient_faces="ignore"))
-    sig0 = {"derive": derive, "mesh": case["base"]["mesh_kind"].split("_")[0].split("+")[0], "decade": int(np.floor(np.log10(case["size"])))}
+    late = bool(case.get("late_reorient"))
+
+    def _construct():
+        if not late:
+            return magpy.magnet.TriangularMesh(vertices=V, faces=F, polarization=pol, check_open="ignore",
+                                               check_disconnected="ignore", check_selfintersecting="ignore", reorient_faces="ignore")
+        m_ = magpy.magnet.TriangularMesh(vertices=V, faces=F, polarization=pol, check_open="ignore",
+                                         check_disconnected="ignore", check_selfintersecting="ignore", reorient_faces="skip")
+        with build.quiet():
+            m_.getH(np.asarray(V, dtype=float).max(0) * 3.0 + 1.0)  # any use of the mesh before it is put in order
+            _ = m_.mesh
+            m_.reorient_faces(mode="ignore")
+        return m_
+
+    if late:
+        ctx.label("late_reorient")
+    r = build.call(_construct)
+    sig0 = {"derive": derive, "late_reorient": late, "mesh": case["base"]["mesh_kind"].split("_")[0].split("+")[0], "decade": int(np.floor(np.log10(case["size"])))}
     if not r.ok:
         return [Violation({**sig0, "sub": "construction_raised", **exc_sig(r.exc)}, f"{type(r.exc).__name__}: {str(r.exc)[:200]}")]
     mesh = r.value
     want_open, nparts = _topology(V, F)
     want_disc = nparts > 1
-    want_int = derive in ("intersecting", "rod_plate")
+    want_int = derive in ("intersecting", "rod_plate", "hull_corner")
     if mesh.status_open is not want_open and mesh.status_open != want_open:
         out.append(Violation({**sig0, "sub": "status_open", "expected": want_open}, f"status_open={mesh.status_open}, edge multiset says open={want_open}"))
     if mesh.status_disconnected != want_disc:
         out.append(Violation({**sig0, "sub": "status_disconnected", "expected": want_disc},
                              f"status_disconnected={mesh.status_disconnected}, union-find finds {nparts} part(s)"))
-    if derive in ("intersecting", "rod_plate", "disjoint_boxes", "none", "disconnected") and not want_open:
+    if derive in ("intersecting", "rod_plate", "hull_corner", "disjoint_boxes", "none", "disconnected") and not want_open:
         if mesh.status_selfintersecting != want_int:
             out.append(Violation({**sig0, "sub": "status_selfintersecting", "expected": want_int},
                                  f"status_selfintersecting={mesh.status_selfintersecting}, by construction {want_int} ({case['base']['mesh_kind']})"))
